@@ -336,7 +336,7 @@ class CFG:
         d = self.postdominators()
         return b in d and a in d[b]
 
-    def paths(self, start, end, max_paths=256, back_limit=1):
+    def paths(self, start, end, max_paths=256, back_limit=1, avoid=()):
         """Enumerate paths start ->* end; every back edge taken at most back_limit
         times.  Hitting max_paths is an analysis error (never a pass)."""
         out = []
@@ -349,6 +349,8 @@ class CFG:
                     raise AnalysisError("path bound %d exceeded in %s" % (max_paths, self.fn.name))
                 continue
             for m, lab in n.succ:
+                if m in avoid:
+                    continue
                 if m.id <= n.id and m is not end:  # back edge (ids follow creation order)
                     k = (n.id, m.id)
                     if used.get(k, 0) >= back_limit:
